@@ -37,6 +37,37 @@ CLAIMED['C19'] = dict(
    note="Assumed: X3 built-in safety contracts, Asio writes at most n bytes at p for buffer(p,n), transport delivers at most the bytes it was given, perform() re-enters on_read only with a non-empty span; ghost window [g_lo,g_hi) equalities are assumed only where a contract is enforced. Native replay driver (ASan) for the decoders; framing/handshake violations are reported without a native input (no-failing-input-found).",
    design='5 C19')
 
+CLAIMED['C06'] = dict(
+   category='proof',
+   text="PROOF of the ordering relation: write_req::operator< verified for all (flags, serial) pairs (prioritized dominates; within a 2^31 window the later serial is greater; equal serials not less), write_req::next_serial_num (+1 mod 2^32), and a lemma mechanised over the comparator's CONTRACT: inside one half window the relation is a strict total order that agrees with initiation order (the precondition stable_sort needs). FRAGMENT: the queue surgery of async_sender (resend, failed batch put back, do_write batch) is carried by the async_sender unit where built; NOT decided: that the transport writes a gather list in order; histories with 2^31 publishes outstanding.",
+   note="Trusted base of DESIGN 7. The lemma uses only the contract of write_req::operator< (body replaced).",
+   design='5 C06')
+CLAIMED['C08'] = dict(
+   category='proof',
+   text="PROOF (unbounded) for packet_id_allocator::allocate: for every vector length, with the representation invariant stated pointwise at an arbitrary ghost index: returns 0 iff no identifier is free, otherwise the lowest id of the last interval (never 0), shrinks or drops exactly that interval, leaves all others untouched and preserves the invariant. BOUNDED stand-in for free(pid) (3 intervals quick / 7 thorough, everything symbolic): invariant preserved, exactly pid becomes free, 0 never free. NOT decided: interleavings of the holders; that callers release exactly once (op-class skeletons).",
+   note="vector modelled as element array + length with element-pointer iterators; std::upper_bound = libstdc++ bisection model; free() is a bounded check, never counted as proved.",
+   design='5 C08')
+CLAIMED['C12'] = dict(
+   category='proof',
+   text="PROOF of the keep-alive arithmetic for every K in [0,65535]: negotiated_keep_alive = Server Keep Alive if present else the configured value; assemble_op::compute_read_timeout = exactly 1500*K ms (no int overflow in 3*K*1000/2), duration::max for K=0; ping_op::compute_wait_time = K s, max for K=0. NOT decided: when timers fire, transport latency, the ping/read loops as schedules.",
+   note="Opaque accessors (connack property storage, mqtt context) are ghost objects handed out by stubs with bodies; chrono durations are 64-bit tick counts with the unit conversions clang's AST shows.",
+   design='5 C12')
+CLAIMED['C10'] = dict(
+   category='proof',
+   text="FRAGMENT, proved: exponential_backoff::generate returns 2^min(k,4)*1000 ms +-500 ms for its k-th call, hence always within [0.5 s, 16.5 s], and saturates its exponent at 4; the handshake framing of connect_op (C19 unit). NOT decided / not built: CONNECT contents from the context, CONNACK admission paths, host cycling, stream swap, that CONNECT is the first packet on the wire.",
+   note="boost::random::uniform_smallint<>{-500,500} assumed to return a value in [-500,500].",
+   design='5 C10')
+CLAIMED['C03'] = dict(
+   category='proof',
+   text="FRAGMENT, proved: control_packet::set_dup changes exactly bit 3 of the first wire byte (DUP), every other byte of the serialized packet and the stored packet identifier stay unchanged; packet_id() returns the stored identifier. NOT decided / not built yet: which continuation of publish_send_op applies set_dup and which packet handle is resent; cross-connection wire history.",
+   note="The serialized packet owned through boost::allocate_unique is a ghost string handed out by a stub with a body.",
+   design='5 C03')
+CLAIMED['C13'] = dict(
+   category='proof',
+   text="FRAGMENT, proved: session_state setters/getters are bit-exact on the two flags (session_present = bit 0, subscriptions_present = bit 1, each setter changes only its bit). NOT built yet: update_session_state event contract and the two-flag lemma; NOT decided: that update runs before the first message of the new session is stored.",
+   note="Trusted base of DESIGN 7.",
+   design='5 C13')
+
 NOT_APPLICABLE = {
  'C02': "liveness under fairness over unbounded fault sequences ('eventually completes once the broker stays reachable'): a function contract cannot state 'eventually', and there is no CBMC model of Boost.Asio scheduling; its function-local safety crumbs are carried under C03/C05 (DESIGN 5 C02)",
 }
